@@ -21,6 +21,10 @@ RULE = ("one case = one generated valid world (validity model) x one option tupl
         "non-default option or one host perturbation or one pre-state item was in effect")
 
 
+PROBES = ["stale_report_replaced", "mkdir_p_output", "single_entry_schedule", "asset_income_only", "asset_fully_sold", "has_lost", "in_crypto_fee", "empty_window",
+          "midyear_from", "large_table", "neg_balances_allowed", "equal_instants_in_world", "tie_transfer_funds_disposal", "tie_buy_and_sell"]
+
+
 def make_case(seed, facts, index=0):
     rng = random.Random(seed)
     swarm = {
@@ -36,6 +40,7 @@ def make_case(seed, facts, index=0):
         "hash": rng.random() < 0.8,
         "schedule": rng.random() < 0.8,
         "window": rng.random() < 0.85,
+        "ties": rng.random() < 0.15,
     }
     if rng.random() < 0.04:
         swarm["n_rows"] = rng.choice([60, 120, 200])
@@ -142,15 +147,13 @@ def exec_case(case, facts, src=None):
         clock = (res.get("child") or {}).get("clock") or {}
         sig = (opts["country"], tuple(nondefault), tuple(pert), tuple(sorted(set(case.get("prestate") or []))), tuple(shape),
                "ok" if not violations else violations[0]["cls"] + "@" + violations[0]["site"], tuple(trace))
-        stats = {
-            "runs": 1,
-            "country:" + opts["country"]: 1,
-            "opt:" + (",".join(nondefault) or "defaults"): 1,
-            "clock_reads": clock.get("reads", 0),
-            "clock_jumps_fired": clock.get("jumps", 0),
-            "sim_span_s": _span(case["host"], clock),
-            "rows": sum(1 for _ in W.all_rows(world)),
-        }
+        stats = {"runs": 1, "country:" + opts["country"]: 1, "rows": sum(1 for _ in W.all_rows(world))}
+        for k in nondefault or ["defaults"]:
+            stats["opt:" + k] = 1
+        mkind = ("schedule%d" % len(world["methods"])) if world.get("methods") else ("-m " + opts["method"] if opts.get("method") else "default-method")
+        wkind = ("from+to" if opts.get("from") and opts.get("to") else ("from" if opts.get("from") else ("to" if opts.get("to") else "no-window")))
+        stats["matrix:%s/%s/%s/%s" % (opts["country"], mkind, "-g " + opts["lang"] if opts.get("lang") else "default-language", wkind)] = 1
+        del clock
         for p in pert:
             stats["pert:" + p] = 1
         for k in case.get("prestate") or []:
@@ -212,6 +215,22 @@ def _probes(case, res):
             p["probe:empty_window"] = 1
         if opts.get("from") and not opts["from"].endswith("-01-01"):
             p["probe:midyear_from"] = 1
+    for s in world["sheets"]:
+        inst = [W.parse_ts(r["timestamp"]).astimezone(W.UTC) for t in s["tables"] for r in t["rows"]]
+        if len(set(inst)) != len(inst):
+            p["probe:equal_instants_in_world"] = 1
+            by = {}
+            for t in s["tables"]:
+                for r in t["rows"]:
+                    by.setdefault(W.parse_ts(r["timestamp"]).astimezone(W.UTC), []).append((t["type"], r))
+            for group in by.values():
+                kinds = {k for k, _ in group}
+                if "INTRA" in kinds and "OUT" in kinds:
+                    for k, r in group:
+                        if k == "INTRA" and any(k2 == "OUT" and (r2["exchange"], r2["holder"]) == (r["to_exchange"], r["to_holder"]) for k2, r2 in group):
+                            p["probe:tie_transfer_funds_disposal"] = 1
+                if "IN" in kinds and "OUT" in kinds:
+                    p["probe:tie_buy_and_sell"] = 1
     if sum(1 for _ in W.all_rows(world)) >= 60:
         p["probe:large_table"] = 1
     if opts.get("neg"):
